@@ -14,19 +14,21 @@ def sampleMany (r : RE) (seed n : Nat) : List Word := Id.run do
   return out.reverse
 
 /-- requests (one per line, one reply line each):
-    suites                                   -> suite:mode=group,group|mode=…;suite:…
-    explore <suite> <mode#> incl|disj <file> -> `cert <states> <reps>` (definitions written to <file>) | `witness <hex>` | `overflow <n>`
+    suites                                   -> suite:level,level:mode=group,group|mode=…;suite:…
+    explore <suite> <mode#> <k> <file>       -> `cert <states> <reps>` (definitions written to <file>) | `witness <hex>` | `overflow <n>`
+                                                (k = 0: detection; k + 1: level k of the table)
     classify <suite> <hex>                   -> `<detected 0|1> <level,level|->`
     rm <suite> <level#|detect> <hex>         -> 0|1   (rmatch of the rendered re.search language)
-    ob <suite> <mode#> incl|disj|grammar <hex> -> 0|1
+    ob <suite> <mode#> <k>|grammar <hex>     -> 0|1
     sample <suite> <mode#> <seed> <n>        -> hex list of grammar words -/
 def handle (line : String) : IO String := do
   match line.trimAscii.toString.splitOn " " with
   | ["suites"] =>
     return ";".intercalate (suites.map fun s =>
-      s.name ++ ":" ++ "|".intercalate (s.modes.map fun m => m.name ++ "=" ++ ",".intercalate m.group))
-  | ["explore", sn, i, kind, file] =>
-    let r := obligation sn i.toNat! (kind == "incl")
+      s.name ++ ":" ++ ",".intercalate (s.table.levels.map (·.name)) ++ ":" ++
+        "|".intercalate (s.modes.map fun m => m.name ++ "=" ++ ",".intercalate m.group))
+  | ["explore", sn, i, k, file] =>
+    let r := (suite sn).ob i.toNat! k.toNat!
     match explore r 30000 with
     | .witness w => return s!"witness {Hex.encode w}"
     | .overflow n => return s!"overflow {n}"
@@ -51,7 +53,7 @@ def handle (line : String) : IO String := do
     match Hex.decode hex with
     | none => return "bad-op"
     | some w =>
-      let r := if kind == "grammar" then (nthMode (suite sn).modes i.toNat!).grammar else obligation sn i.toNat! (kind == "incl")
+      let r := if kind == "grammar" then (nthMode (suite sn).modes i.toNat!).grammar else (suite sn).ob i.toNat! kind.toNat!
       return (if rmatch r w then "1" else "0")
   | ["sample", sn, i, seed, n] =>
     let g := (nthMode (suite sn).modes i.toNat!).grammar
